@@ -203,12 +203,12 @@ pub struct Rule { pub input: Side, pub output: Side, pub context: Option<EnvSpec
 #[derive(Clone, Debug)]
 pub struct Style {
     pub arrow: &'static str, pub pipe: &'static str, pub star: &'static str, pub ellipsis: &'static str,
-    pub angle: (&'static str, &'static str), pub matrix_space: bool, pub latin_alpha: bool,
+    pub angle: (&'static str, &'static str), pub matrix_space: bool, pub latin_alpha: bool, /** alpha letters counted from the end of the alphabet (α→ω, β→ψ … / α→Z, β→Y …) */ pub alpha_rev: bool,
     /// feature-name spelling: (feature index in the synonym table, spelling) overrides; None = canonical
     pub feat_name: Option<fn(PName) -> String>,
 }
 impl Default for Style {
-    fn default() -> Self { Style { arrow: ">", pipe: "|", star: "*", ellipsis: "...", angle: ("<", ">"), matrix_space: false, latin_alpha: false, feat_name: None } }
+    fn default() -> Self { Style { arrow: ">", pipe: "|", star: "*", ellipsis: "...", angle: ("<", ">"), matrix_space: false, latin_alpha: false, alpha_rev: false, feat_name: None } }
 }
 
 const GREEK: &str = "αβγδεζηθικλμνξοπρστυφχψω";
@@ -216,11 +216,21 @@ pub fn alpha_char(i: usize) -> char { GREEK.chars().nth(i % 24).unwrap() }
 fn latin_of(c: char) -> char { match GREEK.chars().position(|g| g == c) { Some(i) => (b'A' + i as u8) as char, None => c } }
 
 impl Style {
+    fn alpha_letter(&self, c: char) -> char {
+        let Some(i) = GREEK.chars().position(|g| g == c) else { return c };
+        let n = GREEK.chars().count();
+        match (self.latin_alpha, self.alpha_rev) {
+            (false, false) => c,
+            (true, false) => latin_of(c),
+            (false, true) => GREEK.chars().nth(n - 1 - i).unwrap_or(c),
+            (true, true) => (b'Z' - (i as u8 % 26)) as char,
+        }
+    }
     fn sign(&self, s: &Sign) -> String {
         match s {
             Sign::Plus => "+".into(), Sign::Minus => "-".into(),
-            Sign::Alpha(c) => if self.latin_alpha { latin_of(*c).to_string() } else { c.to_string() },
-            Sign::NegAlpha(c) => format!("-{}", if self.latin_alpha { latin_of(*c) } else { *c }),
+            Sign::Alpha(c) => self.alpha_letter(*c).to_string(),
+            Sign::NegAlpha(c) => format!("-{}", self.alpha_letter(*c)),
         }
     }
     pub fn params(&self, p: &Params) -> String {
